@@ -320,6 +320,25 @@ def add_layout_variants_stream(env, res=None, directory: str = 'sy7') -> int:
     return spk
 
 
+def truncate_fragments(buf: bytes, n: int) -> bytes:
+    """the first n media fragments of a file (cut where the n+1-th segment begins)"""
+    sf = ib.index_file(buf)
+    return buf[:sf.segments[n].start] if n < len(sf.segments) else buf
+
+
+def add_short_reference_stream(env, res=None, directory: str = 'cut') -> int:
+    """video (the timing reference) of 8 fragments = 32 s next to audio of 10 fragments = 40 s: a track with
+    more media than the reference"""
+    from dlv.appenv import FIXTURES
+    fx = FIXTURES / 'bbb'
+    files = {'cut_v7': truncate_fragments((fx / 'bbb_v7.mp4').read_bytes(), 8), 'cut_a1': (fx / 'bbb_a1.mp4').read_bytes()}
+    assert len(ib.index_file(files['cut_v7']).segments) == 8
+    spk = env.add_stream(directory, title='Video shorter than audio', files=files)
+    if res is not None:
+        res.count('synthetic.streams')
+    return spk
+
+
 def add_retracked_video_stream(env, res=None, directory: str = 'vt5') -> int:
     """bbb with its video on track 5 (track ids only have to be unique within a stream): the video
     AdaptationSet of a manifest is numbered 1 whatever the track id is."""
